@@ -60,6 +60,17 @@ GOLDEN = [
      """  t1 <- lua_div (lua_tonumber (index ARGV 1)) (LNum (25 # 10)) ;;
   t2 <- lua_ceil t1 ;;
   ret t2."""),
+    ("swap", '--[==[ a long\ncomment ]==]\nlocal a, b = tonumber(ARGV[1]), ARGV[2]; a, b = b, a;\nreturn a - b;',
+     """  let t1 := (lua_tonumber (index ARGV 1)) in
+  let t2 := (index ARGV 2) in
+  let v_a := t1 in
+  let v_b := t2 in
+  let t3 := v_b in
+  let t4 := v_a in
+  let v_a := t3 in
+  let v_b := t4 in
+  t5 <- lua_sub v_a v_b ;;
+  ret t5."""),
     ("numstr", 'return redis.call("INCRBY", KEYS[1], "7")',
      """  t1 <- redis_call INCRBY [(index KEYS 1); (LStr (BInt 7))] ;;
   ret t1."""),
@@ -82,7 +93,9 @@ REJECT = [
     ("length operator", 'return #ARGV'),
     ("modulo", 'return 5 % 2'),
     ("multiple return", 'return 1, 2'),
-    ("multiple assignment", 'local a, b = 1, 2\nreturn a'),
+    ("unbalanced multiple assignment", 'local a, b = 1\nreturn a'),
+    ("multiple assignment to a global", 'local a = 1\na, b = 2, 3\nreturn a'),
+    ("name twice in one local", 'local a, a = 1, 2\nreturn a'),
     ("statement after return", 'return 1\nlocal x = 2'),
     ("redis.sha1hex", 'return redis.sha1hex("x")'),
     ("math.random", 'return math.random(3)'),
@@ -110,6 +123,8 @@ EVAL = [
     ("ceil", "mkR 0 []", ["BInt 6"], "RInt 3"),
     ("numstr", 'mkR 0 [(BStr "k", mkEntry (BInt 35) (Some 5))]', [], "RInt 42"),
     ("numstr", 'mkR 0 [(BStr "k", mkEntry (BStr "x") None)]', [], "RErr ENotInt"),
+    ("swap", "mkR 0 []", ["BInt 3", "BInt 10"], "RInt 7"),         # b - a, the string "10" coerced by the subtraction
+    ("swap", "mkR 0 []", ["BInt 3", 'BStr "x"'], "RErr EType"),
     ("eq", "mkR 0 []", ['BStr "k"'], "RInt 1"),
     ("eq", "mkR 0 []", ['BStr "j"'], "RNil"),
 ]
